@@ -17,7 +17,9 @@ RULE = ('tables of 0..N rows for Interval, Bed6, Bed12, BedGraph, NarrowPeak, SA
         'non-trivial = at least 2 rows differing in the width of some cell (or a multi-line FASTA record) written in at '
         'least 2 pieces, or an integer cell next to a power of ten / int64 bound')
 EXHAUSTIVE = {'quick': False, 'thorough': False}
-TIE = 'correspondence (Model.C03.run_hist evaluated in Coq on the same history; reference reader on the written bytes)'
+TIE = ('translator+correspondence: 38 definitions regenerated from /repo (translate/gen_c03.py -> Gen/C03.v) bridged to the named '
+       'helpers of Model/C03.v (Bridge/C03.v, theorem C03_source_tie); Model.C03.run_hist evaluated in Coq on the same history, '
+       'reference reader on the written bytes')
 ASSUMPTIONS = [
     'A-FLOAT: float cells are printed by Python str(float) (opaque printer): the generator supplies that text and the exact '
     'value; spec_ok compares the value read back with the exact value to 1e-12 relative',
